@@ -46,31 +46,32 @@ type foundViol struct {
 }
 
 type parentState struct {
-	mu        sync.Mutex
-	rep       *report.Reporter
-	viols     map[string]*foundViol
-	pendAttr  []violation
-	confirmed map[string]bool
-	evals     int64
-	trips     int64
-	precise   int64
-	trivial   int64
-	sweep     int64
-	lpSamples int
-	cases     int64
-	skipped   int64
-	sigs      map[string]int64
-	distinct  map[uint64]struct{}
-	samples   report.Samples
-	maxAlloc  uint64
-	deaths    int
-	transient int
-	hangs     int
-	grpDeaths map[string]int
-	grpDead   map[string]bool
-	perFamily map[string]*famCov
-	notes     []string
-	desc      *describeResponse
+	mu           sync.Mutex
+	rep          *report.Reporter
+	viols        map[string]*foundViol
+	pendAttr     []violation
+	confirmed    map[string]bool
+	evals        int64
+	trips        int64
+	precise      int64
+	trivial      int64
+	sweep        int64
+	lpSamples    int
+	cases        int64
+	skipped      int64
+	sigs         map[string]int64
+	distinct     map[uint64]struct{}
+	samples      report.Samples
+	maxAlloc     uint64
+	deaths       int
+	transient    int
+	hangs        int
+	grpDeaths    map[string]int
+	grpDead      map[string]bool
+	perFamily    map[string]*famCov
+	setterPanics int64 // reconfiguration family: setter calls that panicked (not a C04 clause; reported as coverage)
+	notes        []string
+	desc         *describeResponse
 }
 
 type famCov struct {
@@ -127,6 +128,9 @@ func (ps *parentState) merge(r *result, fam string) {
 	}
 	if f, ok := r.Extra["sweep"].(float64); ok {
 		ps.sweep += int64(f)
+	}
+	if f, ok := r.Extra["setter_panics"].(float64); ok {
+		ps.setterPanics += int64(f)
 	}
 	if fc := ps.perFamily[fam]; fc != nil {
 		fc.Done += r.Cases
@@ -301,6 +305,29 @@ func parent() {
 			}
 		}
 	}
+	// frames interleaved with run-time reconfiguration (all histories up to a depth)
+	reconfName := "LpPacket frames interleaved with run-time reconfiguration (all histories)"
+	if want(reconfName) {
+		rc := &famCov{}
+		ps.perFamily[reconfName] = rc
+		rcfgs := []int{1, 4} // 2 threads: non-local and local face
+		if thorough {
+			rcfgs = []int{0, 1, 2, 3, 4, 5}
+		}
+		for _, cfg := range rcfgs {
+			rc.Size += reconfSize()
+			const step = 30000
+			for lo := int64(0); lo < reconfSize(); lo += step {
+				hi := lo + step
+				if hi > reconfSize() {
+					hi = reconfSize()
+				}
+				nextID++
+				lpJobs = append(lpJobs, &job{t: task{ID: nextID, Kind: "lpreconf", Family: -3, N: cfg, Lo: lo, Hi: hi, Only: -1}, fam: reconfName, grpKey: fmt.Sprintf("lpreconf/cfg%d", cfg)})
+				rc.Tasks++
+			}
+		}
+	}
 	// order: small families first, the big odometer families last
 	work := map[int]int64{}
 	for fi, f := range d.Families {
@@ -372,26 +399,28 @@ func parent() {
 		exhaustive = false
 	}
 	cov := report.Coverage{
-		"evaluations":               ps.evals,
-		"cases":                     ps.cases,
-		"distinct_nontrivial":       nontrivial,
-		"rule":                      "cases are (entry point, input) pairs enumerated by odometers (no repeats inside a family); an evaluation is trivial when the decoder stops with end-of-input before it has read one TLV header. Distinctness of the hundreds of millions of non-trivial cases is not stored, so distinct_nontrivial is the conservative, measured number of distinct (entry point, outcome signature) pairs observed among them (outcome signature = ok / error type with the TLV type number it names / panic / for the link service dropped|dispatched|stored per fragment kind); nontrivial_evaluations is the raw count",
-		"nontrivial_evaluations":    ps.evals - ps.trivial,
-		"accessor_calls":            ps.sweep,
-		"accessors_swept":           d.Accessors,
-		"samples":                   ps.samples.List(),
-		"exhaustive":                exhaustive,
-		"generated_parsers":         len(models),
-		"entry_points":              len(d.Entries),
-		"seeds":                     len(d.Seeds),
-		"seed_notes":                d.SeedNotes,
-		"families":                  ps.perFamily,
-		"outcomes":                  ps.sigs,
-		"max_alloc_one_call":        ps.maxAlloc,
-		"worker_deaths":             ps.deaths,
-		"transient_deaths":          ps.transient,
-		"hangs":                     ps.hangs,
-		"frame_sequences":           bfsCov,
+		"evaluations":            ps.evals,
+		"cases":                  ps.cases,
+		"distinct_nontrivial":    nontrivial,
+		"rule":                   "cases are (entry point, input) pairs enumerated by odometers (no repeats inside a family); an evaluation is trivial when the decoder stops with end-of-input before it has read one TLV header. Distinctness of the hundreds of millions of non-trivial cases is not stored, so distinct_nontrivial is the conservative, measured number of distinct (entry point, outcome signature) pairs observed among them (outcome signature = ok / error type with the TLV type number it names / panic / for the link service dropped|dispatched|stored per fragment kind); nontrivial_evaluations is the raw count",
+		"nontrivial_evaluations": ps.evals - ps.trivial,
+		"accessor_calls":         ps.sweep,
+		"accessors_swept":        d.Accessors,
+		"samples":                ps.samples.List(),
+		"exhaustive":             exhaustive,
+		"generated_parsers":      len(models),
+		"entry_points":           len(d.Entries),
+		"seeds":                  len(d.Seeds),
+		"seed_notes":             d.SeedNotes,
+		"families":               ps.perFamily,
+		"outcomes":               ps.sigs,
+		"max_alloc_one_call":     ps.maxAlloc,
+		"worker_deaths":          ps.deaths,
+		"transient_deaths":       ps.transient,
+		"hangs":                  ps.hangs,
+		"frame_sequences":        bfsCov,
+		"reconfiguration_histories": map[string]any{"alphabet": reconfEvents, "depth": reconfDepth(), "histories_per_configuration": reconfSize(), "configurations": map[bool]string{false: "2 threads, non-local and local face", true: "1, 2, 32 threads x non-local / local face"}[thorough],
+			"checked": "last event of every history (all shorter histories are members of the family)", "setter_panics": ps.setterPanics},
 		"alloc_attribution":         attrCov,
 		"build_s":                   tBuild.Seconds(),
 		"workers":                   enum.Workers(),
@@ -409,7 +438,7 @@ func parent() {
 		"a worker death is attributed through the worker's progress marker and believed only after the single case reproduces it in 3 fresh workers; after " + fmt.Sprint(groupDeathLimit) + " deaths in one family group the rest of the group is abandoned (exhaustive=false)",
 		"hangs: a call that does not return within 20 s (60 s x3 on confirmation) or, for the scripted stream readers, 100000 consecutive zero-length reads",
 		"forwarding threads are recording stubs; PIT/CS/FIB are therefore never reached by a frame in this check",
-		"link-service histories (single frames, sequences, bursts): every frame is copied into ONE receive buffer per face, whose earlier content is overwritten first (a transport owns its buffer between calls); C04.state compares the link-service dump and a deep fingerprint of every packet already handed to a recording thread before/after a frame that fails to decode or has contradictory fragmentation fields; the stream entries use readTlvStream's own buffer",
+		"link-service histories (single frames, sequences, bursts, reconfiguration histories): every frame is copied into ONE receive buffer per face, whose earlier content is overwritten first (a transport owns its buffer between calls); C04.state compares the link-service dump and a deep fingerprint of every packet already handed to a recording thread before/after a frame that fails to decode or has contradictory fragmentation fields; the stream entries use readTlvStream's own buffer",
 	}
 	rep.Finish(cov, assumptions)
 }
@@ -625,6 +654,8 @@ func replay(bin, path string) int {
 	var t task
 	if rf.Replay.Family == -2 {
 		t = task{ID: 11, Kind: "lpburst", Family: -2, N: rf.Replay.Cfg, Lo: rf.Replay.Index, Hi: rf.Replay.Index + 1, Only: -1}
+	} else if rf.Replay.Family == -3 {
+		t = task{ID: 11, Kind: "lpreconf", Family: -3, N: rf.Replay.Cfg, Lo: rf.Replay.Index, Hi: rf.Replay.Index + 1, Only: -1}
 	} else if len(rf.Replay.Hist) > 0 {
 		t = task{ID: 11, Kind: "lphist", N: rf.Replay.Cfg, Hist: rf.Replay.Hist, Only: -1}
 	} else {
